@@ -238,7 +238,48 @@ fn builtin_loaders(world: &World, texts: &[(String, Vec<u8>)]) {
     }
 }
 
+/// Error precedence through the archive sources: a type with extensions [a, b] whose `.a` member exists but cannot be
+/// read (the archive's reader fails once, with a real I/O error) and whose `.b` member is absent must fail with that
+/// I/O error (an I/O error is preferred over "not found"), name the id, cache nothing, and load after the fault.
+fn precedence_through_archives(sel: u64) {
+    use super::c04::{build_tar, build_zip, ArcOpts, FsTree, RFault, SimReader};
+    use assets_manager::source::{Tar, Zip};
+    use assets_manager::AssetCache;
+    let mut t = FsTree::default();
+    t.add_file("x", "a", b"payload of x.a, long enough to need a read".to_vec());
+    t.add_file("other", "b", b"unrelated".to_vec());
+    let opts = ArcOpts { order: sel | 1, dir_members: sel % 2 == 0, dot_prefix: false, gnu: true, deflate: false };
+    let kind = [IoKind::PermissionDenied, IoKind::Other, IoKind::TimedOut][(sel % 3) as usize];
+    let fault = RFault::HardAt((sel / 3) % 3, kind);
+    fn run<S: assets_manager::source::Source + Send + Sync + 'static>(name: &str, src: S, ctl: super::c04::ReaderCtl, kind: IoKind) {
+        ctl.opened();
+        let cache = AssetCache::without_hot_reloading(src);
+        match cache.load::<LAB>("x") {
+            Ok(_) => {
+                detsim::check(ctl.fired() == 0, "C03/archive-load-ignored-io-error", || format!("{name}: load::<LAB>(\"x\") succeeded although reading x.a hit an injected {kind:?}"));
+            }
+            Err(e) => {
+                detsim::check(ctl.fired() > 0, "C03/archive-load-fails-without-fault", || format!("{name}: load failed without a fault: {}", e.reason()));
+                let got = e.reason().downcast_ref::<std::io::Error>().map(|x| x.kind());
+                detsim::check(e.id() == "x" && got == Some(kind.to_std()), "C03/error-precedence", || format!("{name}: x.a exists but reading it failed with {:?}, x.b is absent: load::<LAB>(\"x\") must report that I/O error; it reports id {:?}, reason {:?} (io kind {got:?})", kind.to_std(), e.id(), e.reason().to_string()));
+                detsim::check(!cache.contains::<LAB>("x"), "C03/failed-load-cached-something", || format!("{name}: the failed load cached x"));
+                detsim::check(cache.load::<LAB>("x").is_ok(), "C03/no-success-after-repair", || format!("{name}: x does not load once the reader works again"));
+                detsim::count("reach.io_error_then_absent_extension_through_archive");
+            }
+        }
+    }
+    let (r, ctl) = SimReader::with_fault(build_tar(&t, &opts), fault);
+    if let Ok(tar) = Tar::from_reader(r) {
+        run("tar", tar, ctl, kind);
+    }
+    let (r, ctl) = SimReader::with_fault(build_zip(&t, &opts), fault);
+    if let Ok(zip) = Zip::from_reader(r) {
+        run("zip", zip, ctl, kind);
+    }
+}
+
 fn scenario(w: Work) {
+    precedence_through_archives(fnv(serde_json::to_string(&w.ops).unwrap().as_bytes()) >> 8);
     let mut world = World::new(w.front, w.tree.clone(), w.variant);
     builtin_strings(&world, &w.texts);
     builtin_loaders(&world, &w.texts);
